@@ -48,6 +48,7 @@ Verdict(x) ==
              f == HFailed(nominal, x.calls)
              okc == {k \in DOMAIN x.calls : x.calls[k].ok}
              n == Len(x.calls)
+             vs == Views(x.calls)
          IN [id |-> x.id,
              failed |-> f,
              known |-> IF /\ f # {}
@@ -59,9 +60,9 @@ Verdict(x) ==
              drift |-> IF ExactLengths(x)
                        THEN {k \in okc : Drift(nominal, x.calls[k])} ELSE {},
              ncalls |-> n,
-             entered |-> Sum([k \in 1..n |-> IF k \in okc THEN Entered(x.calls[k]) ELSE 0], n),
-             left |-> Sum([k \in 1..n |-> IF k \in okc THEN Left(x.calls[k]) ELSE 0], n),
-             deleted |-> Sum([k \in 1..n |-> IF k \in okc THEN Deleted(x.calls[k]) ELSE 0], n)]
+             entered |-> Sum([k \in 1..n |-> IF k \in okc THEN EnteredV(vs[k]) ELSE 0], n),
+             left |-> Sum([k \in 1..n |-> IF k \in okc THEN LeftV(vs[k]) ELSE 0], n),
+             deleted |-> Sum([k \in 1..n |-> IF k \in okc THEN DeletedV(vs[k]) ELSE 0], n)]
 
 TInit == /\ tid \in 1..Len(Traces) /\ TLCSet(tid, Verdict(Traces[tid]))
          /\ g = <<>> /\ st = <<>> /\ calls = <<>> /\ phase = "trace"
